@@ -646,6 +646,9 @@ func tdSchemaLists(c *Ctx, rule, path, short string) {
 	r, u := c.R, c.U
 	for _, fname := range []string{"ParquetWriter.Write", "newParquetWriter", "NewParquetReader"} {
 		fn := u.Func(path, fname)
+		if fname == "newParquetWriter" {
+			fn = roleFunc(u, path, "writerInner")
+		}
 		if fn == nil {
 			r.undecided(rule, short+"."+fname+" column list", "", "function not found")
 			continue
@@ -822,7 +825,7 @@ func readerFields(u *Universe, path string) (*readerRoles, string) {
 	rr := &readerRoles{}
 	rowsFn := u.Func(path, "ParquetReader.Rows")
 	next := u.Func(path, "ParquetReader.Next")
-	rrg := u.Func(path, "ParquetReader.readRowGroup")
+	rrg := roleFunc(u, path, "readRowGroup")
 	if rowsFn == nil || next == nil || rrg == nil {
 		return nil, "ParquetReader.Rows / Next / readRowGroup not found"
 	}
@@ -1035,7 +1038,7 @@ func tdCtor(c *Ctx, rule, path, short string) {
 		return
 	}
 	pos := u.Pos(fn.Pos())
-	rrg := u.Func(path, "ParquetReader.readRowGroup")
+	rrg := roleFunc(u, path, "readRowGroup")
 	// the object under construction: what the constructor returns
 	var self ssa.Value
 	for _, b := range fn.Blocks {
@@ -1120,7 +1123,7 @@ func tdCtor(c *Ctx, rule, path, short string) {
 // tdRowGroup: readRowGroup takes row group 0 and page list entry 0 of each column and removes exactly those.
 func tdRowGroup(c *Ctx, rule, path, short string) {
 	r, u := c.R, c.U
-	fn := u.Func(path, "ParquetReader.readRowGroup")
+	fn := roleFunc(u, path, "readRowGroup")
 	key := short + ".(*ParquetReader).readRowGroup"
 	if fn == nil {
 		r.undecided(rule, key, "", "readRowGroup not found")
@@ -1304,7 +1307,7 @@ func keyAgreement(u *Universe, path string, fn *ssa.Function, key ssa.Value) str
 			}
 		}
 	}
-	gf := u.Func(path, "getFields")
+	gf := roleFunc(u, path, "getFields")
 	if gf == nil {
 		return "getFields not found"
 	}
